@@ -6,10 +6,14 @@ from harness.core import hx, unhx, Violation, excname
 
 LEAN_TARGETS = ["PoorProofs.Props.C08"]
 AUDIT_IMPORTS = ["PoorProofs.Props.C08"]
-LEAN_FILES = ["PoorModel/Multipart.lean", "PoorProofs/Lemmas/Multipart.lean", "PoorProofs/Props/C08.lean"]
+LEAN_FILES = ["PoorModel/Multipart.lean", "PoorModel/Reader.lean", "PoorProofs/Lemmas/Multipart.lean",
+              "PoorProofs/Lemmas/MultipartG.lean", "PoorProofs/Lemmas/Reader.lean", "PoorProofs/Props/C08.lean"]
 THEOREMS = ["Poor.Multipart.extract_aux", "Poor.Multipart.at_boundary", "Poor.Multipart.headerLines_block",
             "Poor.Multipart.parseHeaderLine_render", "Poor.Multipart.readParts_step", "Poor.Multipart.parse_encode",
-            "Poor.Props.C08.C08_extract", "Poor.Props.C08.BOk_of_boundary", "Poor.Props.C08.C08_memory"]
+            "Poor.Props.C08.C08_extract", "Poor.Props.C08.BOk_of_boundary", "Poor.Props.C08.C08_memory",
+            "Poor.Multipart.extract_auxG", "Poor.Multipart.lfContract", "Poor.Multipart.cachedContract",
+            "Poor.Multipart.parse_encodeG", "Poor.Props.C08.C08_any_reader", "Poor.Props.C08.C08_cached",
+            "Poor.Props.C08.C08_cached_fresh", "Poor.Props.C08.C08_delivery_independent"]
 TRUSTED_BASE = ["model Poor.Multipart hand-written from fieldstorage.py:507-790; email.FeedParser is modelled as a "
                 "'Name: value' line splitter (header blocks outside that shape are reported as model-unsupported); "
                 "parse_header is Poor.HeaderValue.parseHeader (C18); the caching reader is Poor.Reader (C09)",
